@@ -8,7 +8,7 @@
 (*            x PerCfg (left, right) draws each                             *)
 (* MainU, MainS and Two take every pair of lists in which at least one list *)
 (* is shorter than the longest length, and of the pairs of two longest      *)
-(* lists either all (NLong < 0) or NLongU / NLongS / NLong2 (per            *)
+(* lists either all (NLong.. = 0) or NLongU / NLongS / NLong2 (per          *)
 (* configuration) draws.  All draws come from TLC's generator (-seed).      *)
 (* Init enumerates the union of the parts without building it as one set.   *)
 (***************************************************************************)
@@ -25,11 +25,11 @@ Long2 == UNION {Draws(c, Longest(Lefts2(c), MaxLen2), Longest(Rights2(c), MaxLen
 Sampled == UNION {Draws(c, Lefts1(c), Rights1(c), PerCfg) : c \in RandomSubset(NCfg, Configs1)}
 
 VARIABLE x
-Init == \/ \E l \in LL1, r \in RL1 : (NLongU < 0 \/ Short(l, r, MaxLen)) /\ x = Case(MainCfgU, l, r)
+Init == \/ \E l \in LL1, r \in RL1 : (NLongU = 0 \/ Short(l, r, MaxLen)) /\ x = Case(MainCfgU, l, r)
         \/ \E l \in Lefts1(MainCfgS), r \in Rights1(MainCfgS) :
-              (NLongS < 0 \/ Short(l, r, MaxLen)) /\ x = Case(MainCfgS, l, r)
+              (NLongS = 0 \/ Short(l, r, MaxLen)) /\ x = Case(MainCfgS, l, r)
         \/ \E c \in Configs2 : \E l \in Lefts2(c), r \in Rights2(c) :
-              (NLong2 < 0 \/ Short(l, r, MaxLen2)) /\ x = Case(c, l, r)
+              (NLong2 = 0 \/ Short(l, r, MaxLen2)) /\ x = Case(c, l, r)
         \/ x \in LongU \cup LongS \cup Long2 \cup Sampled
 Next == UNCHANGED x
 Emit == PrintT(ToJson(x))
